@@ -305,6 +305,18 @@ func checkSigCase(c SigCase, r *Recorder) error {
 	return nil
 }
 
+// foreignPackets: well-formed OpenPGP packets that are not signatures (new-format headers).
+var foreignPackets = map[string][]byte{
+	"user-id-packet":      append([]byte{0xCD, 10}, []byte("x <x@y.zz>")...),
+	"literal-data-packet": append([]byte{0xCB, 9}, []byte{'b', 0, 0, 0, 0, 0, 'd', 'a', 't'}...),
+	// ... and signature packets with nothing in them: a header that says "signature, 0 bytes" in
+	// the old and the new format, and one of indeterminate length
+	"empty-signature-packet-old-format":        {0x88, 0x00},
+	"empty-signature-packet-new-format":        {0xC2, 0x00},
+	"signature-header-of-indeterminate-length": {0x8B},
+	"signature-packet-of-one-byte":             {0xC2, 0x01, 0x04},
+}
+
 // pgpHeaderLen: the length of the packet header the signature starts with (0 = not understood).
 func pgpHeaderLen(p []byte) int {
 	if len(p) < 3 || p[0]&0x80 == 0 {
@@ -384,7 +396,7 @@ func genSignedBase(t *rapid.T) SignedBase {
 
 var specC16 = Register(&Spec[SigCase]{
 	Prop: "C16", Name: "debsig",
-	Rule:  "fault enumeration over generated debsig-signed packages (C14 models with stored/gzip/zstd members, role in {origin, maint, archive}, RSA signer from a per-process pool, detached binary signature over debian-binary|control|data in '_gpg<role>'): the untampered package with the signer in the keyring (accept - and after the check the handle still delivers the signed payload, and a repeated check agrees; the same with another signed package of the same layout loaded before and after it and left open); EVERY single-byte XOR 0x01 inside the three signed members (reject); a decoy control.*/data.* member with a different extension (a stored tar carrying 'Package: evil', or a copy) and a same-name duplicate with changed content inserted at EVERY member position, each loaded 64 times (reject); a decoy named the GNU way - a '//' name table plus a member '/0' - at every position (must fail or expose the signed content); a role that is not present, an unrelated keyring, an empty keyring (reject); a second CheckDebsig on the same handle with an unrelated or empty keyring after a successful first one (the second must fail); EVERY single-byte XOR inside the signature member (must fail or still verify the unmodified content); per signed member one altered byte in a package loaded from a FILE that is closed before the check while its path (or the path told to Load) leads to the genuine package (reject); the signature member followed by junk, a NUL byte, a truncated or a damaged second signature, and a second copy whose version, public-key-algorithm or hash-algorithm byte lost a bit (five masks) in front of or behind the good one (reject); the signature member replaced by its ASCII-armored form, alone (either outcome), with a foreign/empty keyring and with flipped bytes in each signed member (reject). Oracle: reject => Load or CheckDebsig fails on every repetition; always: if both succeed, the control data exposed equals the signed package's model and the signer is the signing entity. Non-trivial: every faulted case; distinct by (bytes, role, keyring).",
+	Rule:  "fault enumeration over generated debsig-signed packages (C14 models with stored/gzip/zstd members, role in {origin, maint, archive}, RSA signer from a per-process pool, detached binary signature over debian-binary|control|data in '_gpg<role>'): the untampered package with the signer in the keyring (accept - and after the check the handle still delivers the signed payload, and a repeated check agrees; the same with another signed package of the same layout loaded before and after it and left open); EVERY single-byte XOR 0x01 inside the three signed members (reject); a decoy control.*/data.* member with a different extension (a stored tar carrying 'Package: evil', or a copy) and a same-name duplicate with changed content inserted at EVERY member position, each loaded 64 times (reject); a decoy named the GNU way - a '//' name table plus a member '/0' - at every position (must fail or expose the signed content); a role that is not present, an unrelated keyring, an empty keyring (reject); a second CheckDebsig on the same handle with an unrelated or empty keyring after a successful first one (the second must fail); EVERY single-byte XOR inside the signature member (must fail or still verify the unmodified content); per signed member one altered byte in a package loaded from a FILE that is closed before the check while its path (or the path told to Load) leads to the genuine package (reject); the signature member followed by junk, a NUL byte, a truncated or a damaged second signature, followed by the first k bytes of a second copy for EVERY k, with a well-formed user-ID or literal-data packet or an empty / one-byte / indeterminate-length signature packet in front of or behind it, and a second copy whose version, public-key-algorithm or hash-algorithm byte lost a bit (five masks) in front of or behind the good one (reject); the signature member replaced by its ASCII-armored form, alone (either outcome), with a foreign/empty keyring and with flipped bytes in each signed member (reject). Oracle: reject => Load or CheckDebsig fails on every repetition; always: if both succeed, the control data exposed equals the signed package's model and the signer is the signing entity. Non-trivial: every faulted case; distinct by (bytes, role, keyring).",
 	Check: checkSigCase,
 })
 
@@ -504,6 +516,30 @@ func enumerateSigFaults(b SignedBase, yield func(SigCase) bool) bool {
 			sm[len(sm)-1].Data = append(append([]byte{}, sig...), tail...)
 			if !yield(mk(renderAr(sm), "reject", "sig+"+name, 2)) {
 				return false
+			}
+		}
+	}
+	// ... nor one followed by the beginning of a second copy, cut at any length
+	{
+		sig := members[len(members)-1].Data
+		for k := 1; k < len(sig); k++ {
+			sm := append([]ArMember{}, members...)
+			sm[len(sm)-1].Data = append(append([]byte{}, sig...), sig[:k]...)
+			if !yield(mk(renderAr(sm), "reject", fmt.Sprintf("sig+second-cut@%d", k), 1)) {
+				return false
+			}
+		}
+	}
+	// ... nor one with well-formed packets of another kind next to it
+	{
+		sig := members[len(members)-1].Data
+		for name, pkt := range foreignPackets {
+			for order, two := range [][]byte{append(append([]byte{}, sig...), pkt...), append(append([]byte{}, pkt...), sig...)} {
+				sm := append([]ArMember{}, members...)
+				sm[len(sm)-1].Data = two
+				if !yield(mk(renderAr(sm), "reject", fmt.Sprintf("sig+foreign-packet:%s/%d", name, order), 1)) {
+					return false
+				}
 			}
 		}
 	}
